@@ -66,6 +66,22 @@ struct ExecOpts {
 void exec_init(); // objects, hooks, policies
 RunResult execute(const Plan& plan, const ExecOpts& opts);
 
+// stepwise execution of a plan (used by the thread scheduler)
+struct Session {
+    Session(const Plan& plan, const ExecOpts& opts);
+    ~Session();
+    Session(const Session&) = delete;
+    bool step(std::size_t event_index);
+    bool stopped() const;
+    RunResult finish(); // resets the policies
+    PolicyOps* ops(int pol);
+    const Registry& updated(int pol);
+
+  private:
+    struct Impl;
+    Impl* impl;
+};
+
 // differential wrappers: run the plan and the counterparts derived from it
 RunResult run_plan(const Plan& plan, const ExecOpts& opts);
 
